@@ -691,7 +691,10 @@ func (g *GcsEmu) handleGcsNewObjectResume(ctx context.Context, baseUrl HttpBaseU
 	// Are we done?
 	if byteRange.sz < 0 || len(u.data) < int(byteRange.sz) {
 		// Not finished; save the contents and tell the client to resume.
-		w.Header().Set("Range", fmt.Sprintf("bytes=0-%d", len(u.data)-1))
+		if len(u.data) > 0 {
+			// (nothing received yet: no Range header - "bytes=0--1" is not a range)
+			w.Header().Set("Range", fmt.Sprintf("bytes=0-%d", len(u.data)-1))
+		}
 		w.Header().Set("Content-Type", u.Object.ContentType)
 		if r.Header.Get("X-Guploader-No-308") == "yes" {
 			w.Header().Set("X-Http-Status-Code-Override", "308")
